@@ -20,7 +20,7 @@ META = {
     "functions": ["typelib.py.classes.slotted", "typelib.py.classes.slotted.<locals>.wrap", "typelib.py.classes._stack"],
     "bounds": {
         "quick": "dataclasses with 0-3 fields (no default / default / default_factory), flags frozen, eq, order, unsafe_hash, bases "
-                 "{none, unslotted dataclass, slotted dataclass, slotted with weakref, slotted parent over an unslotted grandparent}, user __getstate__/__setstate__, the four "
+                 "{none, unslotted dataclass, slotted dataclass, slotted with weakref, slotted parent over an unslotted grandparent}, user __getstate__ / __setstate__ (none, both, __setstate__ alone), the four "
                  "(dict, weakref) combinations - every combination (choice variables, exhaustively enumerated); decoration histories "
                  "of 1-3 classes over {valid dataclass, same-named frozen dataclass, non-dataclass (fails), same-named subclass of an unslotted dataclass, other name}",
         "thorough": "0-4 fields, histories of 1-4 classes",
@@ -57,8 +57,11 @@ def _getstate(self):
 
 
 def _setstate(self, st):
+    """A user hook with a visible effect (ints come back +100), tolerant of both default state forms."""
+    if isinstance(st, tuple):  # object.__getstate__ of a slotted instance: (dict or None, slots dict)
+        st = {**(st[0] or {}), **(st[1] or {})}
     for k, v in st.items():
-        object.__setattr__(self, k, v)
+        object.__setattr__(self, k, v + 100 if type(v) is int else v)
 
 
 def build(ch: Chooser, max_fields, basek, d, w):
@@ -67,7 +70,9 @@ def build(ch: Chooser, max_fields, basek, d, w):
     frozen, eq = ch.flag(), ch.flag()
     order = eq and ch.flag()
     unsafe_hash = ch.flag()
-    user_state = ch.flag()
+    # 0 none, 1 both hooks, 2 only __setstate__ (a lone __getstate__ returning a mapping cannot be restored into
+    # slots by any default mechanism - dataclasses' own slots=True included - and is outside the domain)
+    user_state = ch.pick(3)
     kinds = []
     seen_default = basek != 0  # the base's field has a default, so ours must too
     for i in range(nf):
@@ -98,8 +103,9 @@ def build(ch: Chooser, max_fields, basek, d, w):
     flags = dict(frozen=frozen, eq=eq, order=order, unsafe_hash=unsafe_hash)
     ns = {}
     C = _mk("C", fields, bases=(base,) if base else (), **flags)
-    if user_state:
+    if user_state in (1, 3):
         C.__getstate__ = _getstate
+    if user_state in (1, 2):
         C.__setstate__ = _setstate
     desc = dict(nf=nf, kinds=kinds, base=basek, dict=d, weakref=w, user_state=user_state, **flags)
     return C, base, desc, (d, w)
@@ -190,11 +196,13 @@ def compare(C, S, base, desc, dw):
             pass
     # copy / deepcopy
     for fn in (copy.copy, copy.deepcopy):
-        try:
-            cc, sc = fn(c2), fn(s2)
-        except Exception as e:  # noqa: BLE001
-            return ("copy_raised:" + type(e).__name__, "copy", _d(desc, e))
-        if repr(cc) != repr(sc) or type(sc) is not S:
+        def tried(o):
+            try:
+                return ("ok", repr(fn(o)), type(fn(o)).__name__)
+            except Exception as e:  # noqa: BLE001
+                return ("raised", type(e).__name__)
+        cc, sc = tried(c2), tried(s2)
+        if cc != sc:
             return ("copy_differs", "copy", _d(desc, cc, sc))
     # pickle (class looked up by module.qualname)
     def rt(cls, obj):
@@ -312,7 +320,7 @@ def make_history(length, timeout):
 
 
 def conditions(tier, seed):
-    to = 40.0 if tier == "quick" else 180.0
+    to = 75.0 if tier == "quick" else 240.0
     mf = 3 if tier == "quick" else 4
     out = [make_def(b, d, w, to, mf) for b in range(5) for d in (False, True) for w in (False, True)]
     out += [make_history(n, to) for n in ((1, 2, 3) if tier == "quick" else (1, 2, 3, 4))]
